@@ -71,3 +71,13 @@ Proof.
                                        destruct Hh as [Hh|Hh]; discriminate|]).
   contradiction.
 Qed.
+
+(* load_or_init_model: run_dir/latest, when it exists, takes precedence over config.load_model (which is stored
+   in run.yaml and therefore set on every later start of such a run); load_model next; init_weights last *)
+Theorem resume_precedence_tie :
+  (forall lm, choose_branch true lm true = Some ALoadState) /\
+  (forall rd ex, rd && ex = false -> choose_branch rd true ex = Some ALoadInitial) /\
+  (forall rd ex, rd && ex = false -> choose_branch rd false ex = Some AInitWeights).
+Proof.
+  split; [intros [|]; reflexivity|split]; intros [|] [|] H; try discriminate; reflexivity.
+Qed.
